@@ -72,7 +72,12 @@ def category(k):
   if '.blocks[' in k and '.roots[' in k:
     return 'precond'
   if '.sketches[' in k:
-    return 'sketch'
+    # the frequent-directions sketch proper; ema_ggt / svd_result_* /
+    # inv_prev_tail (add_ggt, ekfac_svd) are refreshed on every step by design
+    if k.rsplit('.', 1)[-1] in ('eigvecs', 'eigvals', 'inv_eigvals', 'tail',
+                                'inv_tail'):
+      return 'sketch'
+    return 'sketch_aux'
   if '.acc[' in k:
     return 'acc'
   if '.trace[' in k:
